@@ -28,20 +28,24 @@ def budget(tier):
 
 
 @st.composite
-def case(draw):
+def case(draw, deep=False):
     neg = draw(st.integers(0, 9)) == 0
     if neg:
         from vlib import gen_neg
 
         prog = draw(gen_neg.negative_program())
     else:
-        cfg = gen_prog.Cfg()
+        if deep and draw(st.booleans()):
+            # thorough tier: wider integers, more input bits, longer bodies
+            cfg = gen_prog.Cfg(int_widths=[2, 3, 4, 4, 5, 6, 7, 8], max_in_bits=11, max_stmts=6, depth=3)
+        else:
+            cfg = gen_prog.Cfg()
         prog = draw(gen_prog.program(cfg))
     return {"prog": prog, "opt": draw(st.sampled_from(["default", "fast"]))}
 
 
 def strategy(tier):
-    return case()
+    return case(deep=(tier == "thorough"))
 
 
 def judge(case):  # noqa: C901
@@ -64,7 +68,7 @@ def judge(case):  # noqa: C901
     except progeval.Timeout:
         return {"status": "skip", "nontrivial": False, "features": feats + ["timeout"]}
     if qf is None:
-        return {"status": "rejected", "nontrivial": False, "features": feats + ["rejected:" + rej]}
+        return {"status": "rejected", "nontrivial": False, "features": feats + ["rejected:" + rej] + ([] if neg else ["rejected-in-subset"])}
     if neg and not prog.get("ref_src") and not prog.get("body"):
         # accepted a construct for which no reference is defined: nothing to compare with
         return {"status": "ok", "nontrivial": False, "features": feats + ["neg-accepted-unjudged"]}
@@ -190,9 +194,9 @@ def judge(case):  # noqa: C901
 
 def health(status, features, n):
     out = []
-    rej = status.get("rejected", 0)
+    rej = features.get("rejected-in-subset", 0)
     if n and rej / n > 0.35:
-        out.append(f"FAIL rejected fraction {rej}/{n} above 35%")
+        out.append(f"FAIL rejected fraction of subset programs {rej}/{n} above 35%")
     gte = features.get("gen-type-error", 0)
     if n and gte / n > 0.05:
         out.append(f"FAIL generator type errors {gte}/{n}")
